@@ -316,6 +316,13 @@ func runC13(p *core.Prog, r *core.Report, tier string) {
 			}
 		}
 
+		// (f) what a by-index query returns is the map it filled itself under the requested-only guard, or the answer of
+		// another by-index query — not the answer of an unrestricted one (when nothing was requested, for instance)
+		for _, f := range fns {
+			if strings.Contains(f.Name(), "ByIndex") && f.Parent() == nil {
+				checkOwnFilteredResult(p, r, ds, "C13.f", tag+"|"+core.FnKey(f), f)
+			}
+		}
 		// ---- (d)(f) result keyed by the validators manager's index ----
 		for _, f := range fns {
 			if !strings.HasPrefix(f.Name(), "accountsForEpoch") {
@@ -323,9 +330,6 @@ func runC13(p *core.Prog, r *core.Report, tier string) {
 			}
 			// (f) what a by-index query returns without an error is the map it filled itself under the requested-only
 			// guard — not the answer of another query (the unrestricted one, for instance, when nothing was requested)
-			if strings.Contains(f.Name(), "ByIndex") && f.Parent() == nil {
-				checkOwnFilteredResult(p, r, ds, "C13.f", tag+"|"+core.FnKey(f), f)
-			}
 			core.EachInstr(f, func(in ssa.Instruction) {
 				mu, ok := in.(*ssa.MapUpdate)
 				if !ok || !strings.Contains(mu.Map.Type().String(), "map[github.com/attestantio/go-eth2-client/spec/phase0.ValidatorIndex]") {
@@ -387,6 +391,23 @@ func runC13(p *core.Prog, r *core.Report, tier string) {
 	nVM := checkFieldsUnderMutex(p, r, core.NewLockAnalysis(p), "C13.g", "services/validatorsmanager/standard", []string{"validatorsByIndex", "validatorsByPubKey", "validatorPubKeyToIndex"}, "validatorsMutex",
 		"a refresh between this access and the others makes the lookup mix two validator sets (an account reported under another validator's index, or under index 0)")
 	r.Floor("C13.g accesses to the validators manager's maps", nVM, 6)
+
+	// ---- (p) the validators manager asks the beacon node for its validators whatever their state: a state filter on
+	// the request drops the validators in the states it leaves out (exited members of a sync committee, validators
+	// about to activate) from the cache at the next refresh ----
+	nOpts := 0
+	for _, f := range p.FuncsIn("services/validatorsmanager/standard") {
+		for _, sl := range core.StructLits(f, "api.ValidatorsOpts") {
+			nOpts++
+			_, filtered := sl.Fields["ValidatorStates"]
+			at := sl.Alloc.Pos()
+			if filtered {
+				at = sl.Stores["ValidatorStates"].Pos()
+			}
+			r.Check(!filtered, "C13.p", fmt.Sprintf("%s|validators-request#%d|no-state-filter", core.FnKey(f), nOpts), p.Pos(at), "the validators are requested without a state filter", "the request for the validators carries a state filter: validators in a state the filter leaves out disappear from the manager's cache although the account managers still have to report them (sync committee eligibility lasts until withdrawal is done)")
+		}
+	}
+	r.Floor("C13.p validators requests of the validators manager", nOpts, 1)
 
 	// ---- (n) what is remembered about an account is remembered under something that identifies the account: a
 	// package-level collection (a map, a sync.Map) in util or the account managers is not keyed by the bare account name
@@ -621,9 +642,16 @@ func checkOwnFilteredResult(p *core.Prog, r *core.Report, ds *core.Describer, ru
 		}
 		own := true
 		for _, lf := range core.PhiLeaves(core.Unspill(ret.Results[0]), ret) {
-			if _, isMake := lf.V.(*ssa.MakeMap); !isMake && !core.IsNilConst(lf.V) {
-				own = false
+			if _, isMake := lf.V.(*ssa.MakeMap); isMake || core.IsNilConst(lf.V) {
+				continue
 			}
+			// a wrapper hands on the answer of another by-index query
+			if ex, ok := lf.V.(*ssa.Extract); ok {
+				if call, ok := ex.Tuple.(*ssa.Call); ok && strings.Contains(core.MethodName(call.Common()), "ByIndex") {
+					continue
+				}
+			}
+			own = false
 		}
 		r.Check(own, rule, fmt.Sprintf("%s|return#%d|own-filtered-result", construct, k+1), p.Pos(ret.Pos()), "the by-index query returns the map it filled itself",
 			"the by-index query returns "+ds.D(ret.Results[0]).String()+", not the map it filled under the requested-only guard: validators that were not requested are reported (every account, when the list of requested indices is empty)")
